@@ -173,6 +173,11 @@ func (o *OracleC05) AfterCall(n *Node, st *Step) {
 			kind = "commit"
 		}
 		future := p.H > st.PreBI || (p.H == st.PreBI && p.V > st.PreV && p.T != dbft.ChangeViewType)
+		// (a pre-commit for a height at which anti-MEV is off is no part of the protocol: it may be
+		// dropped at once or at replay)
+		if p.T == dbft.PreCommitType && !s.sc.amevAt(p.H) {
+			kind = ""
+		}
 		if kind != "" && future && st.PostBI == st.PreBI && int(p.Idx) < len(s.sc.ValsAt(p.H)) {
 			found := false
 			for _, e := range d.VerifState().Cache {
